@@ -141,7 +141,8 @@ def scenarios_c10(rng, n, maximgs, thorough):
 
 def crash_clause_c09(rep, rng, thorough):
     """C09, third sentence: an interrupted re-bucketing never leaves a store that opens with fewer keys."""
-    scens, r = scenarios_c09(rng, 60 if thorough else 8, 14, 0 if thorough else 80, thorough)
+    # (thorough: all images x all byte prefixes of 60 translations did not finish in 35 minutes; a seeded sample of 600 per scenario does)
+    scens, r = scenarios_c09(rng, 30 if thorough else 8, 14, 600 if thorough else 80, thorough)
     rep.cov["transitions"] += r.states
     viol, known, summ = run_crash(rep, scens, "C09")
     for what, obj in viol:
@@ -228,7 +229,7 @@ def run(pid):
         scens, r = scenarios_c03(rng, 40 if thorough else 16, 30 if thorough else 22, 1200 if thorough else 110, thorough)
         rep.cov["states"], rep.cov["transitions"] = max(1, r.distinct), max(1, r.states)
     elif pid == "C09X":
-        scens, r = scenarios_c09(rng, 60 if thorough else 12, 14, 0 if thorough else 120, thorough)
+        scens, r = scenarios_c09(rng, 30 if thorough else 12, 14, 600 if thorough else 120, thorough)
         rep.cov["states"], rep.cov["transitions"] = max(1, r.distinct), max(1, r.states)
     else:
         scens = scenarios_c10(rng, 80 if thorough else 16, 0 if thorough else 120, thorough)
